@@ -1,7 +1,7 @@
-(** Examples for TrackP.v (work package trackp): boolean versions of the hypotheses (with soundness), a concrete
-    non-trivial run on which the oracle reports nothing, a doctored trace on which it does (the oracle is not
-    vacuous), and the two model runs on which the oracle raises its false alarms (so the excuses of
-    [mseq_oracle_excused] cannot be dropped). *)
+(** Examples for TrackP.v (work package trackp): a boolean version of [hist_ok] (with soundness), a concrete
+    non-trivial run on which the oracle reports nothing, doctored traces on which it does (the oracle is not
+    vacuous, including the C13 clause), and the two model runs on which the first version of the oracle raised
+    false alarms, now as positive examples. *)
 From Coq Require Import Lia ZifyBool ZifyNat String.
 From Ldlm Require Import Model.Base Model.Err Model.Seq Model.Track Proofs.SeqDefs Proofs.TrackPBase Proofs.TrackPOrder
   Proofs.TrackPTR Proofs.TrackP.
@@ -45,28 +45,6 @@ Proof.
     + destruct ev; try done. destruct key; [done|]. by apply bool_decide_eq_true in H2'.
   - destruct ev; try done. destruct key; [done|]. simpl in *. destruct h as [|[] ?]; done.
   - intros s' o Hin. apply IH. rewrite forallb_forall in H4. apply (H4 (s', o)). by apply elem_of_list_In.
-Qed.
-
-Definition multi_grant_b (cs : list (nat * Z * resp)) : bool :=
-  existsb (λ c1, existsb (λ c2, negb (Nat.eqb (c_wid c1) (c_wid c2)) && (c_at c1 =? c_at c2) &&
-                               is_grant (c_resp c1) && is_grant (c_resp c2)) cs) cs.
-Definition has_grant_b (o : list out) : bool := existsb (λ c, is_grant (c_resp c)) (comps o).
-Definition no_excuse_b (tr : list (event * list out)) : bool :=
-  forallb (λ r, negb (multi_grant_b (comps (snd r))) &&
-                match fst r with EIpcUnlock _ None => negb (has_grant_b (snd r)) | _ => true end) tr.
-
-Lemma no_excuse_b_sound tr : no_excuse_b tr = true → no_excuse tr.
-Proof.
-  intros H ev o Hin. unfold no_excuse_b in H. rewrite forallb_forall in H. specialize (H (ev, o)). simpl in H.
-  apply andb_true_iff in H as [H1 H2]; [|by apply elem_of_list_In]. split.
-  - intros (c1 & c2 & Hc1 & Hc2 & Hne & Hat & G1 & G2). apply negb_true_iff in H1. unfold multi_grant_b in H1.
-    assert (existsb (λ c1, existsb (λ c2, negb (Nat.eqb (c_wid c1) (c_wid c2)) && (c_at c1 =? c_at c2) &&
-                               is_grant (c_resp c1) && is_grant (c_resp c2)) (comps o)) (comps o) = true); [|congruence].
-    apply existsb_exists. exists c1. split; [by apply elem_of_list_In|]. apply existsb_exists. exists c2. split; [by apply elem_of_list_In|].
-    rewrite G1, G2, Hat, Z.eqb_refl. apply Nat.eqb_neq in Hne. by rewrite Hne.
-  - intros [n ->] (c & Hc & Hg). apply negb_true_iff in H2. unfold has_grant_b in H2.
-    assert (existsb (λ c, is_grant (c_resp c)) (comps o) = true); [|congruence].
-    apply existsb_exists. exists c. split; [by apply elem_of_list_In|done].
 Qed.
 
 (** ** A concrete run: two sessions, a lock of size 2, leases, a parked call served by an Unlock, another
@@ -121,16 +99,9 @@ Example ex_run_outputs :
 Proof. vm_compute. reflexivity. Qed.
 
 (** and the theorem applies to it: its hypotheses are satisfiable *)
-Lemma ex_no_excuse_b : forallb (λ r, no_excuse_b (zip ex_hist (snd r))) (runs ex_cfg (init_state ex_cfg) ex_hist) = true.
-Proof. vm_compute. reflexivity. Qed.
-
 Example ex_theorem_applies : ∀ s os, (s, os) ∈ runs ex_cfg (init_state ex_cfg) ex_hist →
   track_failures ex_cfg (zip ex_hist os) = [].
-Proof.
-  intros s os Hin. eapply mseq_satisfies_oracle; [apply ex_cfg_ok|apply ex_hist_ok|exact Hin|].
-  apply no_excuse_b_sound. pose proof ex_no_excuse_b as H. rewrite forallb_forall in H.
-  exact (H (s, os) (proj1 (elem_of_list_In _ _) Hin)).
-Qed.
+Proof. intros s os Hin. eapply mseq_satisfies_oracle; [apply ex_cfg_ok|apply ex_hist_ok|exact Hin]. Qed.
 
 Lemma map_all_eq {A B} (f : A → B) (l : list A) y : Forall (λ z, z = y) (map f l) → ∀ r, r ∈ l → f r = y.
 Proof. rewrite Forall_forall. intros H r Hr. apply H. apply elem_of_list_In, in_map, elem_of_list_In, Hr. Qed.
@@ -154,10 +125,32 @@ Example ex_doctored_lease :
   = [(3%nat, "HOLDS:table-vs-expected-live-holds"%string)].
 Proof. vm_compute. reflexivity. Qed.
 
-(** ** The two false alarms of the oracle, on runs of the model *)
+(** C13: lock "a" (size 1) is released at 6 s and a request with size 2 is accepted 1 s later although min-idle is 5 s *)
+Example ex_doctored_gc :
+  track_failures ex_cfg
+    [ (EConnect sA, []);
+      (ETryLock (Some sA) nA None None (k x31), [OResp (RLock true (k x31) None)]);
+      (EAdvance (6 * second), []);
+      (EUnlock None nA (k x31), [OResp (RUnlock true None)]);
+      (EAdvance (1 * second), []);
+      (ETryLock (Some sA) nA (Some 2) None (k x32), [OResp (RLock true (k x32) None)]) ]
+  = [(5%nat, "C13:collected-before-min-idle"%string)].
+Proof. vm_compute. reflexivity. Qed.
 
-(** two leases on a lock of size 2 end at the same instant; the two parked calls are granted in queue order,
-    and [sort_completions] hands them to the FIFO check in the opposite order *)
+(** the same request more than min-idle after the release is fine (the object may have been collected) *)
+Example ex_gc_late :
+  track_failures ex_cfg
+    [ (EConnect sA, []);
+      (ETryLock (Some sA) nA None None (k x31), [OResp (RLock true (k x31) None)]);
+      (EUnlock None nA (k x31), [OResp (RUnlock true None)]);
+      (EAdvance (31 * second), []);
+      (ETryLock (Some sA) nA (Some 2) None (k x32), [OResp (RLock true (k x32) None)]) ]
+  = [].
+Proof. vm_compute. reflexivity. Qed.
+
+(** ** The two histories on which the first version of the oracle raised false alarms *)
+
+(** two leases on a lock of size 2 end at the same instant; the two parked calls are granted in queue order *)
 Definition fa1_hist : list event :=
   [ EConnect sA; EConnect sB;
     ETryLock (Some sA) nA (Some 2) (Some 2) (k x31);
@@ -167,16 +160,10 @@ Definition fa1_hist : list event :=
     EAdvance (3 * second) ].
 
 Lemma fa1_compute :
-  map (λ r, track_failures ex_cfg (zip fa1_hist (snd r))) (runs ex_cfg (init_state ex_cfg) fa1_hist)
-  = [[(6%nat, "C03:not-fifo"%string)]; [(6%nat, "C03:not-fifo"%string)]].      (* the two orders of the timer tie *)
+  map (λ r, track_failures ex_cfg (zip fa1_hist (snd r))) (runs ex_cfg (init_state ex_cfg) fa1_hist) = [[]; []].      (* the two orders of the timer tie *)
 Proof. vm_compute. reflexivity. Qed.
 
-Lemma oracle_false_alarm_not_fifo :
-  hist_ok ex_cfg (init_state ex_cfg) fa1_hist ∧
-  ∀ r, r ∈ runs ex_cfg (init_state ex_cfg) fa1_hist → track_failures ex_cfg (zip fa1_hist (snd r)) = [(6%nat, "C03:not-fifo"%string)].
-Proof. split; [apply hist_okb_sound; by vm_compute|]. apply map_all_eq. rewrite fa1_compute. repeat constructor. Qed.
-
-(** an admin Unlock by name hands the capacity to a parked call: the oracle counts the released hold *)
+(** an admin Unlock by name hands the capacity to a parked call *)
 Definition fa2_hist : list event :=
   [ EConnect sA;
     ETryLock (Some sA) nA None None (k x31);
@@ -184,13 +171,19 @@ Definition fa2_hist : list event :=
     EIpcUnlock nA None; EProbe ].
 
 Lemma fa2_compute :
-  map (λ r, track_failures ex_cfg (zip fa2_hist (snd r))) (runs ex_cfg (init_state ex_cfg) fa2_hist) = [[(3%nat, "C01:grant-over-capacity"%string)]].
+  map (λ r, track_failures ex_cfg (zip fa2_hist (snd r))) (runs ex_cfg (init_state ex_cfg) fa2_hist) = [[]].
 Proof. vm_compute. reflexivity. Qed.
 
-Lemma oracle_false_alarm_by_name :
-  hist_ok ex_cfg (init_state ex_cfg) fa2_hist ∧
-  ∀ r, r ∈ runs ex_cfg (init_state ex_cfg) fa2_hist → track_failures ex_cfg (zip fa2_hist (snd r)) = [(3%nat, "C01:grant-over-capacity"%string)].
-Proof. split; [apply hist_okb_sound; by vm_compute|]. apply map_all_eq. rewrite fa2_compute. repeat constructor. Qed.
+(** an admin Unlock by name with two holds of that name: deferred to the probe *)
+Definition fa3_hist : list event :=
+  [ EConnect sA;
+    ETryLock (Some sA) nA (Some 2) None (k x31);
+    ETryLock (Some sA) nA (Some 2) None (k x32);
+    ELock 7%nat (Some sA) nA (Some 2) None None (k x33);
+    EIpcUnlock nA None; EProbe; EIpcList ].
+
+Lemma fa3_compute :
+  map (λ r, track_failures ex_cfg (zip fa3_hist (snd r))) (runs ex_cfg (init_state ex_cfg) fa3_hist) = [[]].
+Proof. vm_compute. reflexivity. Qed.
 
 Print Assumptions ex_theorem_applies.
-Print Assumptions oracle_false_alarm_not_fifo.
